@@ -430,7 +430,13 @@ def run(ctx):
             if len(samples) < 3 and ex["status"] == "ok" and ex["vectors"] and "'while'" in txt:
                 samples.append({"src": src, "paths": ex["paths"], "valid_vectors": ex["vectors"]})
     import streams
-    ssf, ssinfo = streams.small_scope_map(ctx, _ss_worker, 500, extra=(K, cap))
+    ssf, ssinfo = streams.small_scope_map(ctx, _ss_worker, 2500, extra=(K, cap))
+    # the closure every bound of a loop is read from (unit level: chain / rotation bodies against the scalar closure)
+    import unitcorr
+    try:
+        unitcorr.rel_chain_fix(ctx, ctx.n(60, 600), failing, "C03")
+    except Exception as e:
+        mism.append(f"chain-fixpoint stream: harness error {type(e).__name__}: {e}")
     failing += ssf
     tot["small_scope"] = ssinfo
     # cases outside the fragment / ill-fitting paths: "no execution" on both sides
@@ -478,6 +484,9 @@ def run(ctx):
 def replay(ctx, data):
     vlib.import_pymwp()
     inp = data.get("input", data)
+    if "src" not in inp:
+        import unitcorr
+        return unitcorr.replay_unit(inp, "C03")
     ex = examine(inp["src"], ctx.n(2, 3), ctx.n(120, 300), ctx.rng)
     return ex["failing"][0] if ex["failing"] else None
 
